@@ -75,6 +75,12 @@ def check(run: Run) -> None:
     allowed = {"process_method_callbacks": "method/class callback", "process_function_call": "function processor", "process_parameterized_method_call": "parameterized property callback"}
     run.floor("C09.R5", len(sites), 3, "callback invocation sites")
     for fi, c, kind, _via in sites:
+        if allowed.get(fi.name) != kind and fi.parent_func is not None and allowed.get(fi.parent_func.name) == kind:
+            # invoked from a function nested in the designated one: when that function is handed to reduce / map / a
+            # scheduler, which callback runs when - and with which stream - is decided by that machinery
+            handed = any(isinstance(x, ast.Name) and x.id == fi.name and isinstance(x.ctx, ast.Load) and not (isinstance(getattr(x, "_parent", None), ast.Call) and x._parent.func is x) for x in own_nodes(fi.parent_func))
+            if handed:
+                raise AnalysisError(f"{fi.parent_func.name} runs its callbacks through the nested function {fi.name}, which it hands to another function (reduce, map, ..): the order of the callbacks and the stream each one receives cannot be read from this shape")
         run.check(allowed.get(fi.name) == kind, "C09.R5", fi, stmt_of(c), f"{kind} invoked from its designated site", f"a {kind} is invoked from {fi.name}: callbacks may fire for call sites that are not being processed")
     run.check(len(sites) == 3, "C09.R5", None, None, "exactly three invocation sites", f"{len(sites)} callback invocation sites")
     for fi, c, kind, via in sites:
